@@ -268,6 +268,14 @@ func classifyLoop(p *Prog, fn *ssa.Function, h *ssa.BasicBlock, body map[*ssa.Ba
 		if !ok {
 			continue
 		}
+		if flip, isFlip := map[token.Token]token.Token{token.GTR: token.LSS, token.GEQ: token.LEQ, token.LSS: token.GTR, token.LEQ: token.GEQ}[bo.Op]; isFlip {
+			// bound on the left ("len(x) > i+1"): read it with the variable on the left
+			if _, varLeft := stripAddConst(bo.X).(*ssa.Phi); !varLeft {
+				if _, varRight := stripAddConst(bo.Y).(*ssa.Phi); varRight {
+					bo = &ssa.BinOp{Op: flip, X: bo.Y, Y: bo.X}
+				}
+			}
+		}
 		lhs := bo.X
 		if add, ok := lhs.(*ssa.BinOp); ok && add.Op == token.ADD && add.X == ssa.Value(phi) {
 			if _, isC := constInt(add.Y); isC {
@@ -337,6 +345,15 @@ var acyclicLinks = map[string]string{
 
 var _ = types.Typ
 var _ = strings.Contains
+
+func stripAddConst(v ssa.Value) ssa.Value {
+	if add, ok := v.(*ssa.BinOp); ok && (add.Op == token.ADD || add.Op == token.SUB) {
+		if _, isC := constInt(add.Y); isC {
+			return add.X
+		}
+	}
+	return v
+}
 
 // capturedNotWrittenIn: the captured variable is shared only between this function literal (typically the body of
 // a range-over-func loop) and the function that made it, whose code does not run while the literal does; inside
